@@ -4,9 +4,9 @@
 // canonical data as lean/Driver/RayBox.lean.
 //
 //   lattice <pairs> <ox> <oy> <oz> <sh> [<lo> <hi>]
-//        one line per box: <box> <fullD> <specD> <fullF> <specF> <nFeHit> <nIsHit>
+//        one line per box: <box> <fullD> <specD> <fullF> <specF> <nFeHit> <nIsHit> <tieD> <tieF>
 //        (full = every output incl. out-parameters when false, started from sentinels;
-//         spec = the two booleans and the points when true)
+//         spec = the two booleans and the points when true; tie = spec + the 2-argument wrapper's boolean)
 //   lines <pairs> <ox> <oy> <oz> <sh> <box> <d|f>     per-case text of one box
 //   case <d|f> <12 numbers: box min, box max, pos, dir>   numbers: strtod syntax or x<16 hex digits>
 //   sweep <d|f> <seed> <quick|thorough>                float guard sweep blocks (input of `drv_raybox sweep`)
@@ -132,12 +132,13 @@ static Lat parseLat (char** a)
     return L;
 }
 
-struct BoxSum { uint64_t fullD, specD, fullF, specF; long nFe, nIs; };
+struct BoxSum { uint64_t fullD, specD, fullF, specF, tieD, tieF; long nFe, nIs; };
 
-template <class T> static void boxHashes (const Lat& L, int bi, uint64_t& full, uint64_t& spec, long& nFe, long& nIs)
+// tie = what the property specifies: the three booleans always, the points only when the result is true
+template <class T> static void boxHashes (const Lat& L, int bi, uint64_t& full, uint64_t& spec, uint64_t& tie, long& nFe, long& nIs)
 {
     Box<Vec3<T>> b = L.box<T> (bi);
-    full = spec = 1469598103934665603ull;
+    full = spec = tie = 1469598103934665603ull;
     nFe = nIs = 0;
     for (int ci = 0; ci < 15625; ++ci)
     {
@@ -147,6 +148,7 @@ template <class T> static void boxHashes (const Lat& L, int bi, uint64_t& full, 
         Out<T> o = run<T> (b, pos, dir);
         full = fullHash (full, o);
         spec = specHash (spec, o);
+        tie  = mixB (specHash (tie, o), o.isb);
         nFe += o.fe; nIs += o.is;
     }
 }
@@ -364,16 +366,17 @@ int main (int argc, char** argv)
                 {
                     BoxSum& s = res[bi - lo];
                     long    a, b2;
-                    boxHashes<double> (L, bi, s.fullD, s.specD, s.nFe, s.nIs);
-                    boxHashes<float> (L, bi, s.fullF, s.specF, a, b2);
+                    boxHashes<double> (L, bi, s.fullD, s.specD, s.tieD, s.nFe, s.nIs);
+                    boxHashes<float> (L, bi, s.fullF, s.specF, s.tieF, a, b2);
                 }
             });
         for (auto& t : th) t.join ();
         for (int bi = lo; bi < hi; ++bi)
         {
             const BoxSum& s = res[bi - lo];
-            printf ("%d %llu %llu %llu %llu %ld %ld\n", bi, (unsigned long long) s.fullD, (unsigned long long) s.specD,
-                    (unsigned long long) s.fullF, (unsigned long long) s.specF, s.nFe, s.nIs);
+            printf ("%d %llu %llu %llu %llu %ld %ld %llu %llu\n", bi, (unsigned long long) s.fullD, (unsigned long long) s.specD,
+                    (unsigned long long) s.fullF, (unsigned long long) s.specF, s.nFe, s.nIs,
+                    (unsigned long long) s.tieD, (unsigned long long) s.tieF);
         }
         return 0;
     }
